@@ -15,7 +15,7 @@ type c06 struct{}
 func (c06) ID() string    { return "C06" }
 func (c06) Level() string { return "exploration" }
 func (c06) Rule() string {
-	return "a model of 3 services (each with a variable-bearing image, a relative build context and a relative bind mount) and a network, volume, secret and config: every assignment of the services to {main file, included file 1, included file 2} x nesting {flat, chain, diamond} x directory of each included file {same, sub-directory, sibling} x project_directory {absent, relative, absolute} x include syntax {short, long} x environment sources of the included project {none, own .env, one env_file, two env_files} x the variable defined in every subset of {parent environment, included environment}; sibling includes with disjoint and clashing variables; conflicting and identical redefinitions; include cycles of length 1..3; an environment-sourced config/secret inside an included file. Oracle: field-level equality with the pasted model (parent environment first, included environment for what it does not define; paths joined with the included project directory); conflict/cycle -> error. distinct = distinct scenario shapes"
+	return "a model of 3 services (each with a variable-bearing image, a relative build context and a relative bind mount) and a network, volume, file secret, environment-sourced secret and config: every assignment of the services to {main file, included file 1, included file 2} x nesting {flat, chain, diamond} x directory of each included file {same, sub-directory, sibling} x project_directory {absent, relative, absolute} x include syntax {short, long} x environment sources of the included project {none, own .env, one env_file, two env_files} x the variable defined in every subset of {parent environment, included environment}; sibling includes with disjoint and clashing variables; conflicting and identical redefinitions; include cycles of length 1..3; an environment-sourced config/secret inside an included file. Oracle: field-level equality with the pasted model (parent environment first, included environment for what it does not define; paths joined with the included project directory); conflict/cycle -> error. distinct = distinct scenario shapes"
 }
 func (c06) Assumptions() []string {
 	return []string{"the pasted model is computed by the reference in props/c06.go from the statement"}
@@ -128,7 +128,16 @@ func c06check(s c06scn) core.Outcome {
 	res := [3]string{}
 	res[s.place[0]] += "networks:\n  net: {driver: bridge}\n"
 	res[s.place[1]] += "volumes:\n  vol: {labels: {l: \"1\"}}\n"
-	res[s.place[2]] += "secrets:\n  sec: {file: ./sec.txt}\nconfigs:\n  cfg: {file: ./cfg.txt}\n"
+	// an environment-sourced secret travels with a: its value is what the variable is worth where it is declared
+	secs := [3]string{}
+	secs[s.place[2]] += "  sec: {file: ./sec.txt}\n"
+	secs[s.place[0]] += "  esec: {environment: V}\n"
+	for i := range secs {
+		if secs[i] != "" {
+			res[i] += "secrets:\n" + secs[i]
+		}
+	}
+	res[s.place[2]] += "configs:\n  cfg: {file: ./cfg.txt}\n"
 	uses2 := bodies[2] != ""
 	rel := func(fromDir, to string) string {
 		r, _ := filepath.Rel(fromDir, to)
@@ -231,12 +240,7 @@ func c06check(s c06scn) core.Outcome {
 	}
 	// expectations per service
 	projDirOf := []string{"proj", pd1, dirs[2]}
-	for i, n := range c06svc {
-		svc, ok := p.Services[n]
-		if !ok {
-			return core.Outcome{Class: "miss", Sample: sample, Viol: &core.Violation{Key: "included-service-missing", Msg: s.id() + ": service " + n + " missing"}}
-		}
-		where := s.place[i]
+	valueAt := func(where int) string {
 		wantV := ""
 		if s.parentV {
 			wantV = "from-parent"
@@ -248,6 +252,19 @@ func c06check(s c06scn) core.Outcome {
 			// included file 2 lives in the directory whose .env is included project 1's: it is its own .env too
 			wantV = incVal
 		}
+		return wantV
+	}
+	if es, ok := p.Secrets["esec"]; !ok || es.Content != valueAt(s.place[0]) || es.Environment != "V" {
+		return core.Outcome{Class: "esec", Sample: sample, Viol: &core.Violation{Key: fmt.Sprintf("wrong-secret-value:where%d:n%d", s.place[0], s.nesting),
+			Msg: fmt.Sprintf("%s: secret esec (environment: V) declared in file %d has content %q, expected %q", s.id(), s.place[0], es.Content, valueAt(s.place[0]))}}
+	}
+	for i, n := range c06svc {
+		svc, ok := p.Services[n]
+		if !ok {
+			return core.Outcome{Class: "miss", Sample: sample, Viol: &core.Violation{Key: "included-service-missing", Msg: s.id() + ": service " + n + " missing"}}
+		}
+		where := s.place[i]
+		wantV := valueAt(where)
 		if svc.Image != "img-"+n+":"+wantV {
 			return core.Outcome{Class: "img", Sample: sample, Viol: &core.Violation{Key: fmt.Sprintf("wrong-interpolation:where%d:n%d", where, s.nesting),
 				Msg: fmt.Sprintf("%s: service %s image %q, expected %q", s.id(), n, svc.Image, "img-"+n+":"+wantV)}}
